@@ -270,6 +270,31 @@ func (w *sworld) secret(n string, data []byte) error {
 	return nil
 }
 
+// typedFrame sends one frame through the typed layer: Message.PutBytes + FlushFrame(false) (->
+// WriteFrame -> SendPartialMessage) or FinishMessage (-> SendMessage). To the stream model that is one
+// `send` with the end flag the typed layer chose.
+func (w *sworld) typedFrame(n string, data []byte, eom bool) error {
+	e := w.ep(n)
+	enc, fin := e.crypting(), e.finalized
+	m := message.NewMessageForStream(e.s)
+	err := m.PutBytes(bg, data)
+	if err == nil {
+		if eom {
+			err = m.FinishMessage(bg)
+		} else {
+			err = m.FlushFrame(bg, false)
+		}
+	}
+	op := fmt.Sprintf("send %s %s %s", n, b01(eom), orc.Payload(data))
+	if err != nil {
+		e.c.TakeOut()
+		w.log(op, "err "+errClass(err))
+		return err
+	}
+	w.log(op, strings.TrimRight("ok "+w.collect(e, enc, fin), " "))
+	return nil
+}
+
 func (w *sworld) crypto(n string, on bool) {
 	r := w.ep(n).s.SetCryptoMode(on)
 	w.log(fmt.Sprintf("crypto %s %s", n, b01(on)), "ok "+b01(r))
